@@ -64,7 +64,56 @@ structure F (n : Nat) (s : State) : Prop where
   bw : s.spc = SPc.blocked → s.qWaiting = true
   wb : ∀ u, (s.th u).pc = IPc.wBlocked → u ∈ s.pWait
   j1 : s.spc = SPc.acqP → (∀ u, inflightCont (s.th u).pc = false) → s.pause ≠ []
+  zprog : (s.th 0).prog = []
   j2 : (s.spc = SPc.ntaP ∨ s.spc = SPc.relP ∨ s.spc = SPc.waitQ ∨ s.qWaiting = true) →
         (∀ u, inflightCont (s.th u).pc = false) → s.paused ≠ []
+
+theorem addSet_ne_nil (l : List Tid) (t : Tid) : addSet l t ≠ [] := by
+  unfold addSet; split
+  · intro e; simp_all
+  · simp
+
+theorem unionSet_eq_nil {a b : List Tid} (h : unionSet a b = []) : b = [] := by
+  cases b with
+  | nil => rfl
+  | cons x xs =>
+    have : x ∈ unionSet a (x :: xs) := mem_unionSet.mpr (Or.inr (by simp))
+    rw [h] at this; cases this
+
+set_option maxHeartbeats 16000000 in
+theorem f_stepIface {n : Nat} {s s' : State} {t : Tid} {evs : List Ev}
+    (h : F n s) (hw : W s) (hp : PInv s) (hq : QW s) (ht : t ≠ 0)
+    (hs : stepIface Cfg.fixed s t = some (s', evs)) : F n s' := by
+  unfold stepIface at hs
+  simp only [Cfg.fixed, wakeOneP, wakeQ, startOp] at hs
+  (repeat' split at hs) <;>
+  first
+  | (cases hs; done)
+  | (simp only [Bool.false_eq_true, if_false, Option.some.injEq, Prod.mk.injEq] at hs
+     obtain ⟨rfl, -⟩ := hs
+     obtain ⟨a1, a2, a3, a4, a5, a6, a7, a8, a9, a10, a11, a12, a13, a15, a14⟩ := h
+     obtain ⟨b1, b2, b3, b4, b5, b6, b7⟩ := hw
+     obtain ⟨c1, c2⟩ := hp
+     constructor <;> (try simp only [setPc]) <;>
+       grind [holdsP, holdsD, holdsQ, inflightCont, sHoldsQ, fragSpc, cons, WFp, mem_addSet,
+              addSet_ne_nil, mustWait, QW, InLoop])
+
+set_option maxHeartbeats 16000000 in
+theorem f_stepSolver {n : Nat} {s s' : State} {evs : List Ev}
+    (h : F n s) (hw : W s) (hp : PInv s) (hq : QW s)
+    (hs : stepSolver Cfg.fixed s = some (s', evs)) : F n s' := by
+  unfold stepSolver at hs
+  simp only [Cfg.fixed, runQueue, afterRun, checkPause, wakeAllP] at hs
+  (repeat' split at hs) <;>
+  first
+  | (cases hs; done)
+  | (simp only [Option.some.injEq, Prod.mk.injEq] at hs
+     obtain ⟨rfl, -⟩ := hs
+     obtain ⟨a1, a2, a3, a4, a5, a6, a7, a8, a9, a10, a11, a12, a13, a15, a14⟩ := h
+     obtain ⟨b1, b2, b3, b4, b5, b6, b7⟩ := hw
+     obtain ⟨c1, c2⟩ := hp
+     constructor <;> (repeat' split) <;>
+       grind [holdsP, holdsD, holdsQ, inflightCont, sHoldsQ, fragSpc, cons, WFp, mem_unionSet,
+              unionSet_eq_nil, QW, InLoop])
 
 end PysphVerif.Controller
